@@ -609,7 +609,16 @@ impl Zoo {
             self.now += 1_000;
             self.step(Ev { at: self.now, frames: intro, mode: PollMode::Poll, label: "setup:neighbor".into() })?;
         }
-        let iss: u32 = 0x0100_0000;
+        // the peer's initial sequence number: also just below 2^31 and 2^32, so that the receive
+        // window of the established connection lies across the wrap of the signed / unsigned comparison
+        let iss: u32 = match self.cfg.t0 % 3 + (self.cfg.raw4 as i64 % 2) * 3 {
+            0 => 0x0100_0000,
+            1 => 0x7fff_ffff - 20 - (self.cfg.raw6 as u32),
+            2 => 0xffff_ffff - 20 - (self.cfg.raw6 as u32),
+            3 => 0x7fff_ffff - 700,
+            4 => 0x0100_0000,
+            _ => 0xffff_fff0,
+        };
         let syn = indep::tcp::Seg {
             sport: PORT_EST_PEER,
             dport: PORT_EST,
